@@ -65,10 +65,14 @@ example : writeNumber 300 = [0x81, 0x2C] ∧ writeNumber 5 = [5] ∧ writeNumber
 it is current (its files, with directories and empty files interleaved anywhere); `tail` are entries
 after the last file (directories / empty files).  Solid = one group, one folder per file = every group
 holds one file, mixed = anything else.  The archive file is `pre ++ pack streams ++ post` with the
-pack streams at `packPos` after the 32-byte signature header (`post` = the header that was parsed). -/
+pack streams at `packPos` after the 32-byte signature header (`post` = the header that was parsed).
 
-theorem C10_7z_layout (ids : Ids) (c : Codec) (gs : List Group) (tail : List Entry) (attr : Entry → Nat)
-    (pre post : Bytes) (packPos : Nat)
+`extractall(members=…)`: `wanted` = the indices in `list()` of the requested entries (`none` = `members=None`).
+Only the requested files are written; a folder holding none of them is not decoded, any other folder is
+decoded up to the end of its last requested file — and what is written is still each file's own bytes. -/
+
+theorem C10_7z_layout_members (ids : Ids) (c : Codec) (gs : List Group) (tail : List Entry) (attr : Entry → Nat)
+    (pre post : Bytes) (packPos : Nat) (wanted : Option (List Nat))
     (hg : ∀ g ∈ gs, GroupOk ids c g)
     (ht : ∀ e ∈ tail, e.hasStream = false)
     (hpre : pre.length = packPos + headerOffset)
@@ -77,7 +81,8 @@ theorem C10_7z_layout (ids : Ids) (c : Codec) (gs : List Group) (tail : List Ent
     let es := allEntries gs tail
     let r := buildFileList (packR packPos gs tail) (rawEntries attr es) (emptyFileBits es)
     r.files.map (fun f => (f.filename, f.isDirectory, f.uncompressed)) = es.map (fun e => (e.name, e.isDir, e.data.length))
-    ∧ extractAll ids c (pre ++ gs.flatMap (·.packed) ++ post) r = .ok (streamFiles es ++ emptyFiles es) := by
+    ∧ extractAll ids c (pre ++ gs.flatMap (·.packed) ++ post) r wanted
+        = .ok (streamFilesW (isWanted wanted) es 0 ++ emptyFilesW (isWanted wanted) es 0) := by
   intro es r
   have hinfos : buildInfos (rawEntries attr es) (packR packPos gs tail).fileSizes (emptyFileBits es) = es.map (info attr) := by
     have := buildInfos_spec attr es [] [] hattr hdir
@@ -130,9 +135,29 @@ theorem C10_7z_layout (ids : Ids) (c : Codec) (gs : List Group) (tail : List Ent
     | some e => simp only [Option.map_some, info]; split <;> rfl
   · unfold extractAll
     rw [hfold, hpp]
-    have hrun := runPlan_spec ids c gs tail r pre post (packPos + headerOffset) hps hpre hdict hFA gs [] rfl hg
-    simp only [List.length_nil] at hrun
-    rw [hrun, hempty, emptyWrites_spec r.files es 0 hFA, streamFiles_all gs tail ht]
+    have hrun := runPlan_spec ids c gs tail r pre post (packPos + headerOffset) wanted hps hpre hdict hFA gs [] rfl hg
+    simp only [List.length_nil, List.flatMap_nil] at hrun
+    rw [hrun, hempty, emptyWrites_gen r.files wanted es 0 hFA, streamFilesW_all _ gs tail ht]
+
+/-- **`members=None`** (the statement as before): every non-empty file with its own bytes in archive order,
+    then the empty files. -/
+theorem C10_7z_layout (ids : Ids) (c : Codec) (gs : List Group) (tail : List Entry) (attr : Entry → Nat)
+    (pre post : Bytes) (packPos : Nat)
+    (hg : ∀ g ∈ gs, GroupOk ids c g)
+    (ht : ∀ e ∈ tail, e.hasStream = false)
+    (hpre : pre.length = packPos + headerOffset)
+    (hattr : ∀ e ∈ allEntries gs tail, e.isDir = false → attr e &&& 0x10 = 0)
+    (hdir : ∀ e ∈ allEntries gs tail, e.isDir = true → e.data = []) :
+    let es := allEntries gs tail
+    let r := buildFileList (packR packPos gs tail) (rawEntries attr es) (emptyFileBits es)
+    r.files.map (fun f => (f.filename, f.isDirectory, f.uncompressed)) = es.map (fun e => (e.name, e.isDir, e.data.length))
+    ∧ extractAll ids c (pre ++ gs.flatMap (·.packed) ++ post) r = .ok (streamFiles es ++ emptyFiles es) := by
+  intro es r
+  have h := C10_7z_layout_members ids c gs tail attr pre post packPos none hg ht hpre hattr hdir
+  refine ⟨h.1, ?_⟩
+  have h2 := h.2
+  rw [streamFilesW_none, emptyFilesW_none] at h2
+  exact h2
 
 /-! ### the three coders of a reference packer satisfy `GroupOk` -/
 
@@ -145,11 +170,12 @@ structure Enc where
   lzma2 : Nat → Bytes → Bytes         -- property byte, data ↦ raw LZMA2 stream
 
 /-- ASSUMPTION on stdlib `lzma` (third party, not verified): decoding what was encoded gives the data back,
-    when called exactly as `_decompress_lzma` / `_decompress_lzma2` call it on the folder's own pack stream;
-    an encoder never emits an empty stream. -/
+    when called exactly as `_decompress_lzma` / `_decompress_lzma2` call it on the folder's own pack stream —
+    and, with `max_length = m`, its first `m` bytes (`capTo`); an encoder never emits an empty stream. -/
 structure CodecOk (c : Codec) (e : Enc) : Prop where
-  lzma : ∀ props x, props.length = 5 → c.lzmaAlone (props ++ le64 x.length ++ e.lzma props x) = some x
-  lzma2 : ∀ p x, c.lzma2Raw (lzma2Dict p) (e.lzma2 p x) = some x
+  lzma : ∀ props x mo, props.length = 5 →
+    c.lzmaAlone (props ++ le64 x.length ++ e.lzma props x) mo = some (capTo mo x)
+  lzma2 : ∀ p x mo, c.lzma2Raw (lzma2Dict p) (e.lzma2 p x) mo = some (capTo mo x)
   lzma_ne : ∀ props x, e.lzma props x ≠ []
   lzma2_ne : ∀ p x, e.lzma2 p x ≠ []
 
@@ -186,23 +212,45 @@ theorem packGroup_ok (c : Codec) (e : Enc) (hc : CodecOk c e) (m : Method) (hm :
   rw [gen_ids_are_spec]
   cases m with
   | copy =>
-    exact ⟨hs, streamData_ne es hs, by simp [packGroup, applyDecoder]⟩
+    exact ⟨hs, streamData_ne es hs, by intro mo; simp [packGroup, applyDecoder]⟩
   | lzma p =>
     refine ⟨hs, hc.lzma_ne _ _, ?_⟩
     have hp : p.length = 5 := hm
     have h5 : p.take 5 = p := by rw [← hp]; exact List.take_length
-    have := hc.lzma p (streamData es) hp
+    intro mo
+    have := hc.lzma p (streamData es) mo hp
     simp only [le64, List.append_assoc] at this
     simp [packGroup, applyDecoder, specIds, decompressLzma, hp, h5, this]
   | lzma2 p =>
     refine ⟨hs, hc.lzma2_ne _ _, ?_⟩
-    simp [packGroup, applyDecoder, specIds, decompressLzma2, hc.lzma2 p (streamData es)]
+    intro mo
+    simp [packGroup, applyDecoder, specIds, decompressLzma2, hc.lzma2 p (streamData es) mo]
 
 /-- **7z, all layouts, reference packer.**  For every list of folders `layout` (each: a coder COPY / LZMA /
     LZMA2 and the entries listed while it is current, at least one of them a non-empty file), every trailing
     list of directories / empty files, the repaired reader lists every entry with its name, kind and size, and
     `extractall` writes exactly the non-empty files with their own bytes, in archive order, followed by the
     empty files. -/
+theorem C10_7z_reference_members (c : Codec) (e : Enc) (hc : CodecOk c e) (layout : List (Method × List Entry))
+    (tail : List Entry) (attr : Entry → Nat) (pre post : Bytes) (packPos : Nat) (wanted : Option (List Nat))
+    (hm : ∀ l ∈ layout, l.1.wf ∧ streamCount l.2 ≥ 1)
+    (ht : ∀ x ∈ tail, x.hasStream = false)
+    (hpre : pre.length = packPos + headerOffset)
+    (hattr : ∀ x ∈ allEntries (layout.map fun l => packGroup e l.1 l.2) tail, x.isDir = false → attr x &&& 0x10 = 0)
+    (hdir : ∀ x ∈ allEntries (layout.map fun l => packGroup e l.1 l.2) tail, x.isDir = true → x.data = []) :
+    let gs := layout.map fun l => packGroup e l.1 l.2
+    let es := allEntries gs tail
+    let r := buildFileList (packR packPos gs tail) (rawEntries attr es) (emptyFileBits es)
+    r.files.map (fun f => (f.filename, f.isDirectory, f.uncompressed)) = es.map (fun x => (x.name, x.isDir, x.data.length))
+    ∧ extractAll S2T.Gen.SevenZip.ids c (pre ++ gs.flatMap (·.packed) ++ post) r wanted
+        = .ok (streamFilesW (isWanted wanted) es 0 ++ emptyFilesW (isWanted wanted) es 0) := by
+  intro gs es r
+  apply C10_7z_layout_members S2T.Gen.SevenZip.ids c gs tail attr pre post packPos wanted _ ht hpre hattr hdir
+  intro g hg
+  obtain ⟨l, hl, rfl⟩ := List.mem_map.mp hg
+  exact packGroup_ok c e hc l.1 (hm l hl).1 l.2 (hm l hl).2
+
+/-- the same with `members=None`: everything is written -/
 theorem C10_7z_reference (c : Codec) (e : Enc) (hc : CodecOk c e) (layout : List (Method × List Entry))
     (tail : List Entry) (attr : Entry → Nat) (pre post : Bytes) (packPos : Nat)
     (hm : ∀ l ∈ layout, l.1.wf ∧ streamCount l.2 ≥ 1)
@@ -216,24 +264,26 @@ theorem C10_7z_reference (c : Codec) (e : Enc) (hc : CodecOk c e) (layout : List
     r.files.map (fun f => (f.filename, f.isDirectory, f.uncompressed)) = es.map (fun x => (x.name, x.isDir, x.data.length))
     ∧ extractAll S2T.Gen.SevenZip.ids c (pre ++ gs.flatMap (·.packed) ++ post) r = .ok (streamFiles es ++ emptyFiles es) := by
   intro gs es r
-  apply C10_7z_layout S2T.Gen.SevenZip.ids c gs tail attr pre post packPos _ ht hpre hattr hdir
-  intro g hg
-  obtain ⟨l, hl, rfl⟩ := List.mem_map.mp hg
-  exact packGroup_ok c e hc l.1 (hm l hl).1 l.2 (hm l hl).2
+  have h := C10_7z_reference_members c e hc layout tail attr pre post packPos none hm ht hpre hattr hdir
+  refine ⟨h.1, ?_⟩
+  have h2 := h.2
+  rw [streamFilesW_none, emptyFilesW_none] at h2
+  exact h2
 
 /-! ### the hypotheses are satisfiable; counterexamples for the previous behaviour -/
 
 /-- a toy coder pair (prefix a marker byte) satisfying `CodecOk` -/
 def toyEnc : Enc := { lzma := fun _ x => 0 :: x, lzma2 := fun _ x => 0 :: x }
-def toyCodec : Codec := { lzmaAlone := fun s => some (s.drop 14), lzma2Raw := fun _ s => some (s.drop 1) }
+def toyCodec : Codec :=
+  { lzmaAlone := fun s mo => some (capTo mo (s.drop 14)), lzma2Raw := fun _ s mo => some (capTo mo (s.drop 1)) }
 
 theorem toy_ok : CodecOk toyCodec toyEnc := by
   refine ⟨?_, ?_, ?_, ?_⟩
-  · intro p x hp
+  · intro p x mo hp
     simp only [toyCodec, toyEnc]
     rw [show p ++ le64 x.length ++ 0 :: x = (p ++ le64 x.length ++ [0]) ++ x by simp,
       List.drop_left' (by simp [le64, hp])]
-  · intro p x; simp [toyCodec, toyEnc]
+  · intro p x mo; simp [toyCodec, toyEnc]
   · intro p x; simp [toyEnc]
   · intro p x; simp [toyEnc]
 
@@ -261,6 +311,28 @@ example :
       (buildFileList (packR 0 (exLayout.map fun l => packGroup toyEnc l.1 l.2) [exD])
         (rawEntries exAttr [exD, exA, exE, exB, exD]) (emptyFileBits [exD, exA, exE, exB, exD]))
       = .ok [(exA.name, [1, 2, 3]), (exB.name, [4, 5]), (exE.name, [])] := by
+  decide
+
+/-- `members` = only `b.txt` (index 3): folder 0 (LZMA{a}) is not decoded, only `b.txt` is written -/
+example :
+    extractAll S2T.Gen.SevenZip.ids toyCodec
+      (List.replicate 32 0 ++ (exLayout.map fun l => packGroup toyEnc l.1 l.2).flatMap (·.packed) ++ [9, 9])
+      (buildFileList (packR 0 (exLayout.map fun l => packGroup toyEnc l.1 l.2) [exD])
+        (rawEntries exAttr [exD, exA, exE, exB, exD]) (emptyFileBits [exD, exA, exE, exB, exD]))
+      (some [3])
+      = .ok [(exB.name, [4, 5])] := by
+  decide
+
+/-- solid COPY folder {a, b}, `members` = only `a.txt`: decoded up to the end of `a.txt` (3 bytes), cut right;
+    `members` = only `b.txt`: `a.txt` is stepped over -/
+example :
+    let gs := [packGroup toyEnc .copy [exA, exB]]
+    let file := List.replicate 32 0 ++ [1, 2, 3, 4, 5]
+    let r := buildFileList (packR 0 gs []) (rawEntries exAttr [exA, exB]) (emptyFileBits [exA, exB])
+    folderCap r.files (some [0]) [0, 1] = .ok (some (some 3))
+    ∧ extractAll specIds toyCodec file r (some [0]) = .ok [(exA.name, [1, 2, 3])]
+    ∧ extractAll specIds toyCodec file r (some [1]) = .ok [(exB.name, [4, 5])]
+    ∧ extractAll specIds toyCodec file r (some []) = .ok [] := by
   decide
 
 /-- **counterexample (previous `extractall`)**: two folders, COPY coder.  The second member comes out with the
@@ -442,36 +514,64 @@ def sevenKeep (e : Entry) : Bool :=
   !e.isDir && visibleSupported env e.name && decide (e.data.length ≤ env.consts.maxMemorySize)
 
 private theorem sevenLoop_spec (hlim : env.consts.maxMemorySize ≤ env.consts.maxArchiveFileSize)
-    (writes : List (Str × Bytes)) : ∀ (es : List Entry) (files : List FileInfo),
+    (writes : List (Str × Bytes)) : ∀ (es : List Entry) (files : List FileInfo) (i0 : Nat),
     files.map (fun f => (f.filename, f.isDirectory, f.uncompressed)) = es.map (fun e => (e.name, e.isDir, e.data.length)) →
-    (∀ e ∈ es, e.isDir = false → readBack writes e.name = some e.data) →
-    sevenLoop env ap writes (sevenFilter env files)
+    (∀ e ∈ es, sevenKeep env e = true → readBack writes e.name = some e.data) →
+    sevenLoop env ap writes ((sevenFilter env files i0).map (·.2))
       = (es.filter (sevenKeep env)).flatMap fun e => alone env ap e.name e.data := by
   intro es
   induction es with
-  | nil => intro files hf _; cases files <;> simp_all [sevenFilter, sevenLoop]
+  | nil => intro files i0 hf _; cases files <;> simp_all [sevenFilter, sevenLoop]
   | cons e es ih =>
-    intro files hf hrb
+    intro files i0 hf hrb
     cases files with
     | nil => simp at hf
     | cons f fs =>
       simp only [List.map_cons, List.cons.injEq, Prod.mk.injEq] at hf
       obtain ⟨⟨hn, hd, hu⟩, hrest⟩ := hf
-      have ih' := ih fs hrest (fun x hx => hrb x (List.mem_cons_of_mem _ hx))
+      have ih' := ih fs (i0 + 1) hrest (fun x hx => hrb x (List.mem_cons_of_mem _ hx))
       unfold sevenFilter
       cases hdir : e.isDir with
       | true => simp [hd, hdir, sevenKeep, List.filter_cons, ih']
       | false =>
-        have hr := hrb e (List.mem_cons_self ..) hdir
         by_cases hskip : shouldSkip env e.name (baseName e.name) = true
         · simp [hd, hdir, hn, hskip, sevenKeep, visibleSupported, List.filter_cons, ih']
         · by_cases hbig : e.data.length > env.consts.maxMemorySize
           · have : ¬ e.data.length ≤ env.consts.maxMemorySize := by omega
             simp [hd, hdir, hn, hu, hskip, hbig, this, sevenKeep, visibleSupported, List.filter_cons, ih']
           · have hle : e.data.length ≤ env.consts.maxMemorySize := by omega
+            have hk : sevenKeep env e = true := by simp [sevenKeep, hdir, visibleSupported, hskip, hle]
+            have hr := hrb e (List.mem_cons_self ..) hk
             have hp := processEntry_small env ap e.name e.data (by omega)
             simp [hd, hdir, hn, hu, hskip, hbig, hle, sevenKeep, visibleSupported, List.filter_cons, ih',
               sevenLoop, hr, hp]
+
+/-- the `members` handed to `extractall` are exactly the entries `sevenKeep` keeps -/
+private theorem sevenFilter_idx : ∀ (es : List Entry) (files : List FileInfo) (i0 : Nat),
+    files.map (fun f => (f.filename, f.isDirectory, f.uncompressed)) = es.map (fun e => (e.name, e.isDir, e.data.length)) →
+    (sevenFilter env files i0).map (·.1) = keepIdx (sevenKeep env) es i0 := by
+  intro es
+  induction es with
+  | nil => intro files i0 hf; cases files <;> simp_all [sevenFilter, keepIdx]
+  | cons e es ih =>
+    intro files i0 hf
+    cases files with
+    | nil => simp at hf
+    | cons f fs =>
+      simp only [List.map_cons, List.cons.injEq, Prod.mk.injEq] at hf
+      obtain ⟨⟨hn, hd, hu⟩, hrest⟩ := hf
+      have ih' := ih fs (i0 + 1) hrest
+      unfold sevenFilter keepIdx
+      cases hdir : e.isDir with
+      | true => simp [hd, hdir, sevenKeep, ih']
+      | false =>
+        by_cases hskip : shouldSkip env e.name (baseName e.name) = true
+        · simp [hd, hdir, hn, hskip, sevenKeep, visibleSupported, ih']
+        · by_cases hbig : e.data.length > env.consts.maxMemorySize
+          · have : ¬ e.data.length ≤ env.consts.maxMemorySize := by omega
+            simp [hd, hdir, hn, hu, hskip, hbig, this, sevenKeep, visibleSupported, ih']
+          · have hle : e.data.length ≤ env.consts.maxMemorySize := by omega
+            simp [hd, hdir, hn, hu, hskip, hbig, hle, sevenKeep, visibleSupported, ih']
 
 /-! #### reading the temporary directory back -/
 
@@ -544,20 +644,41 @@ private theorem readBack_writes (es : List Entry) (hn : (es.map (·.name)).Nodup
     simp only [streamFiles, List.mem_map, List.mem_filter]
     exact ⟨e, ⟨he, by simp [Entry.hasStream, hd, hdata]⟩, by simp [hdata]⟩
 
-/-- **7z member loop**: if the reader lists the entries `es` (name, kind, size) and `extractall` wrote
-    `streamFiles es ++ emptyFiles es` (both given by `C10_7z_layout`), and the member names are distinct
-    (a *set* of files), then the results are exactly the visible supported non-directory members, each
-    extracted on its own from its own bytes, in archive order. -/
+private theorem sevenKeep_not_dir {e : Entry} (h : sevenKeep env e = true) : e.isDir = false := by
+  unfold sevenKeep at h
+  cases hd : e.isDir <;> simp_all
+
+/-- **7z member loop** (the code path: `extractall(members = the entries that passed the filters)`).  If the
+    reader lists the entries `es` (name, kind, size) and `extractall` wrote the files of the kept entries
+    (`C10_7z_layout_members` with `wanted` = their indices), and the member names are distinct (a *set* of
+    files), then the results are exactly the visible supported non-directory members, each extracted on its
+    own from its own bytes, in archive order. -/
 theorem C10_members_7z (hlim : env.consts.maxMemorySize ≤ env.consts.maxArchiveFileSize)
-    (es : List Entry) (files : List FileInfo) (hn : (es.map (·.name)).Nodup)
+    (es : List Entry) (files : List FileInfo) (i0 : Nat) (hn : (es.map (·.name)).Nodup)
     (hf : files.map (fun f => (f.filename, f.isDirectory, f.uncompressed)) = es.map (fun e => (e.name, e.isDir, e.data.length))) :
-    sevenLoop env ap (streamFiles es ++ emptyFiles es) (sevenFilter env files)
+    sevenLoop env ap (streamFiles (es.filter (sevenKeep env)) ++ emptyFiles (es.filter (sevenKeep env)))
+        ((sevenFilter env files i0).map (·.2))
+      = (es.filter (sevenKeep env)).flatMap fun e => alone env ap e.name e.data := by
+  apply sevenLoop_spec env ap hlim _ es files i0 hf
+  intro e he hk
+  have hn' : ((es.filter (sevenKeep env)).map (·.name)).Nodup :=
+    (List.Sublist.map _ List.filter_sublist).nodup hn
+  exact readBack_writes _ hn' e (List.mem_filter.mpr ⟨he, hk⟩) (sevenKeep_not_dir env hk)
+
+/-- the same when everything was extracted (`members=None`): the extra files in the directory change nothing -/
+theorem C10_members_7z_all (hlim : env.consts.maxMemorySize ≤ env.consts.maxArchiveFileSize)
+    (es : List Entry) (files : List FileInfo) (i0 : Nat) (hn : (es.map (·.name)).Nodup)
+    (hf : files.map (fun f => (f.filename, f.isDirectory, f.uncompressed)) = es.map (fun e => (e.name, e.isDir, e.data.length))) :
+    sevenLoop env ap (streamFiles es ++ emptyFiles es) ((sevenFilter env files i0).map (·.2))
       = (es.filter (sevenKeep env)).flatMap fun e => alone env ap e.name e.data :=
-  sevenLoop_spec env ap hlim _ es files hf (readBack_writes es hn)
+  sevenLoop_spec env ap hlim _ es files i0 hf
+    (fun e he hk => readBack_writes es hn e he (sevenKeep_not_dir env hk))
 
 /-- **7z end to end on the model** (reader state → results), for every layout a reference packer produces.
     `parse` is `SevenZipReader.__init__`; that it returns the state `packR`/`_build_file_list` describe for the
-    bytes a packer wrote is tied by the correspondence (header byte grammar), not proved. -/
+    bytes a packer wrote is tied by the correspondence (header byte grammar), not proved.  `extractall` is
+    called with `members` = the entries that passed the filters: skipped entries are neither decoded nor
+    written, and the results are unchanged. -/
 theorem C10_7z_end_to_end (c : Codec) (e : Enc) (hc : CodecOk c e) (layout : List (Method × List Entry))
     (tail : List Entry) (attr : Entry → Nat) (pre post : Bytes) (packPos : Nat)
     (parse : Bytes → Except Err R) (gs : List Group) (es : List Entry) (file : Bytes)
@@ -572,16 +693,20 @@ theorem C10_7z_end_to_end (c : Codec) (e : Enc) (hc : CodecOk c e) (layout : Lis
     (hn : (es.map (·.name)).Nodup)
     (hsize : file.length ≤ env.consts.max7zFileSize)
     (hparse : parse file = .ok (buildFileList (packR packPos gs tail) (rawEntries attr es) (emptyFileBits es))) :
-    (read7z env ap file parse (fun _ => false) (extractAll S2T.Gen.SevenZip.ids c)).yields
+    (read7z env ap file parse (fun _ => false) (fun f r w => extractAll S2T.Gen.SevenZip.ids c f r w)).yields
         = (es.filter (sevenKeep env)).flatMap (fun x => alone env ap x.name x.data)
-    ∧ (read7z env ap file parse (fun _ => false) (extractAll S2T.Gen.SevenZip.ids c)).terminal = none := by
+    ∧ (read7z env ap file parse (fun _ => false) (fun f r w => extractAll S2T.Gen.SevenZip.ids c f r w)).terminal = none := by
   subst hgs hes hfile
-  have ⟨h1, h2⟩ := C10_7z_reference c e hc layout tail attr pre post packPos hm ht hpre hattr hdir
+  have h0 := (C10_7z_reference_members c e hc layout tail attr pre post packPos none hm ht hpre hattr hdir).1
+  have hidx := sevenFilter_idx env _ _ 0 h0
+  have ⟨h1, h2⟩ := C10_7z_reference_members c e hc layout tail attr pre post packPos
+    (some (keepIdx (sevenKeep env) (allEntries (layout.map fun l => packGroup e l.1 l.2) tail) 0)) hm ht hpre hattr hdir
+  rw [streamFilesW_keepIdx, emptyFilesW_keepIdx] at h2
   unfold read7z
   rw [if_neg (Nat.not_lt.mpr hsize), hparse]
-  simp only [Bool.false_eq_true, if_false]
+  simp only [Bool.false_eq_true, if_false, hidx]
   rw [h2]
-  exact ⟨C10_members_7z env ap hlim _ _ hn h1, rfl⟩
+  exact ⟨C10_members_7z env ap hlim _ _ 0 hn h1, rfl⟩
 
 end loops
 
